@@ -127,3 +127,85 @@ theorem coord3_syntax (a b c : UInt64) (fa fb fc : Dec.Parts) (ha : Dec.classify
   simp [formatFixed_syntax a 8 fa ha, formatFixed_syntax b 8 fb hb, formatFixed_syntax c 1 fc hc]
 
 end TrackVerif.LT.Spec
+
+namespace TrackVerif.LT.Spec
+open TrackVerif TrackVerif.LT TrackVerif.LT.Fmt
+
+theorem padLeft_zero (ds : List Char) : Dec.padLeft 0 '0' ds = ds := by simp [Dec.padLeft]
+
+theorem fmtInt_zero_cases (i : Int) :
+    fmtInt 0 i = (if i < 0 then '-' :: natChars i.natAbs else natChars i.natAbs) := by
+  unfold fmtInt
+  simp only [padLeft_zero, Nat.zero_sub]
+
+/-- `%d` of any integer is an optional sign and digits -/
+theorem fmtInt_isInt (i : Int) : isInt (fmtInt 0 i) = true := by
+  rw [fmtInt_zero_cases]
+  have hd := natChars_digits i.natAbs
+  have hne := natChars_ne_nil i.natAbs
+  have ha := allDigits_of _ hne hd
+  by_cases h : i < 0
+  · simp only [h, if_true, isInt, ha]
+  · simp only [h, if_false]
+    cases hc : natChars i.natAbs with
+    | nil => exact absurd hc hne
+    | cons c cs =>
+      have hcm : c ≠ '-' := (digit_not_punct c (hd c (by rw [hc]; simp))).2.2.2
+      rw [hc] at ha
+      unfold isInt
+      split
+      · rename_i r heq; injection heq with h1 _; exact absurd h1 hcm
+      · exact ha
+
+theorem fmtInt_no_comma (i : Int) : ∀ x ∈ fmtInt 0 i, x ≠ ',' := by
+  rw [fmtInt_zero_cases]
+  intro x hx
+  have hd := natChars_digits i.natAbs
+  by_cases h : i < 0
+  · simp only [h, if_true, List.mem_cons] at hx
+    rcases hx with e | e
+    · subst e; decide
+    · exact (digit_not_punct x (hd x e)).2.2.1
+  · simp only [h, if_false] at hx
+    exact (digit_not_punct x (hd x hx)).2.2.1
+
+theorem positioning_syntax (d p : Int) (i : Bool) :
+    isPositioning (fmtInt 0 d ++ ',' :: (fmtInt 0 p ++ ',' :: fmtInt 0 (if i then 1 else 0))) = true := by
+  unfold isPositioning
+  have hlast : ∀ x ∈ fmtInt 0 (if i then 1 else 0), x ≠ ',' := fmtInt_no_comma _
+  have hrest : splitOnChar ',' (fmtInt 0 p ++ ',' :: fmtInt 0 (if i then 1 else 0)) =
+      [fmtInt 0 p, fmtInt 0 (if i then 1 else 0)] := by
+    rw [splitOnChar_append ',' _ _ (fmtInt_no_comma p), splitOnChar_none ',' _ hlast]
+  rw [splitOnChar_append ',' _ _ (fmtInt_no_comma d), hrest]
+  have h01 : (fmtInt 0 (if i then 1 else 0) == ['0'] || fmtInt 0 (if i then 1 else 0) == ['1']) = true := by
+    cases i <;> decide
+  simp only [fmtInt_isInt, h01, Bool.and_self]
+
+end TrackVerif.LT.Spec
+
+namespace TrackVerif.LT.Spec
+open TrackVerif TrackVerif.LT TrackVerif.LT.Fmt
+
+/-- `distance,MM:SS.cc` -/
+theorem relToStart_syntax (b : UInt64) (f : Dec.Parts) (hf : Dec.classify b = .finite f) (m s cs : Nat)
+    (hs : s < 60) (hcs : cs < 100) :
+    isRelToStart ((Dec.formatFixed b 1).toList ++ ',' ::
+      (Dec.padLeft 2 '0' (natChars m) ++ ':' :: (Dec.padLeft 2 '0' (natChars s) ++ '.' :: Dec.padLeft 2 '0' (natChars cs)))) = true := by
+  unfold isRelToStart
+  have dm := padLeft_digits 2 _ (natChars_digits m)
+  have ds := padLeft_digits 2 _ (natChars_digits s)
+  have dc := padLeft_digits 2 _ (natChars_digits cs)
+  have hdur : ∀ x ∈ Dec.padLeft 2 '0' (natChars m) ++ ':' :: (Dec.padLeft 2 '0' (natChars s) ++ '.' :: Dec.padLeft 2 '0' (natChars cs)),
+      x ≠ ',' := by
+    intro x hx
+    simp only [List.mem_append, List.mem_cons] at hx
+    rcases hx with h | h | h | h | h
+    · exact (digit_not_punct x (dm x h)).2.2.1
+    · subst h; decide
+    · exact (digit_not_punct x (ds x h)).2.2.1
+    · subst h; decide
+    · exact (digit_not_punct x (dc x h)).2.2.1
+  rw [splitOnChar_append ',' _ _ (formatFixed_no_comma b 1 f hf), splitOnChar_none ',' _ hdur]
+  simp only [formatFixed_syntax b 1 f hf, duration_syntax m s cs hs hcs, Bool.and_self]
+
+end TrackVerif.LT.Spec
